@@ -364,6 +364,17 @@ fn scalar(i: u32) -> Option<char> {
     char::from_u32(i)
 }
 
+/// Scalar values that a narrowing cast maps to a separator, a pypi dash character, '%', a letter or a digit.
+fn low_byte_lookalikes() -> Vec<u32> {
+    let mut v = Vec::new();
+    for x in b"/@?#%:=&-_.+, Az09" {
+        for base in [0x100u32, 0x400, 0x4E00, 0xFF00, 0x10000, 0x1F600, 0x100000] {
+            v.push(base + *x as u32);
+        }
+    }
+    v
+}
+
 fn drive_scalars(sink: &mut Sink, rng: &mut Rng, n: usize) {
     // every scalar value if n covers them, otherwise boundaries + a seeded sample
     let all: Box<dyn Iterator<Item = u32>> = if n >= 0x110000 {
@@ -371,11 +382,19 @@ fn drive_scalars(sink: &mut Sink, rng: &mut Rng, n: usize) {
     } else {
         let mut v: Vec<u32> = vec![0, 9, 0x1F, 0x20, 0x25, 0x2F, 0x7F, 0x80, 0xC6, 0xDF, 0x130, 0x131, 0x17F, 0x1C5, 0x3A3, 0x7FF, 0x800, 0x212A, 0x24B6,
                                    0xD7FF, 0xE000, 0xFF21, 0xFFFD, 0xFFFF, 0x10000, 0x10400, 0x1E900, 0x10FFFF];
+        v.extend(low_byte_lookalikes());
         for _ in 0..n.saturating_sub(v.len()) {
             v.push((rng.next() % 0x110000) as u32);
         }
         Box::new(v.into_iter())
     };
+    // characters whose low byte (or low 16 bits) is an ASCII character the library treats specially, in every
+    // component at once: a truncating conversion would take them for that character
+    for i in low_byte_lookalikes() {
+        let Some(c) = scalar(i) else { continue };
+        let s = format!("pkg:t/a{c}/b/n{c}@v{c}?k=x{c}#s{c}/t");
+        parse_all(sink, &s);
+    }
     for i in all {
         let Some(c) = scalar(i) else { continue };
         let mut esc = String::new();
